@@ -8,7 +8,7 @@ BUDGET_S = {'quick': 90, 'thorough': 180}
 FLOORS = {
     'quick': {'distinct_nontrivial': 600, 'feature:factored(m>=50)': 300, 'feature:n==m': 100, 'feature:n==0': 100,
               'feature:x=lit': 50, 'feature:x=term': 200, 'feature:x=rule': 50, 'feature:x=group': 50, 'feature:x=template-arg': 50,
-              'feature:x=in-terminal': 50, 'feature:op?*+': 60, 'feature:parser=lalr': 300, 'feature:parser=earley': 200,
+              'feature:x=in-terminal': 50, 'feature:x=alt-group': 50, 'feature:x=in-terminal-seq': 50, 'feature:op?*+': 60, 'feature:parser=lalr': 300, 'feature:parser=earley': 200,
               'monitor:small_factors-contract': 50, 'feature:accepted': 400, 'feature:rejected': 400},
     'thorough-unused': {'distinct_nontrivial': 40000, 'feature:factored(m>=50)': 20000, 'monitor:small_factors-contract': 5000},
 }
@@ -21,7 +21,7 @@ RULE = ("cases = (item kind x, bounds n..m or operator, parser, repetition count
 ASSUMPTIONS = ["bounds are sampled up to 400 (quick) / enumerated to 140 (thorough, LALR + terminal)",
                "secondary contract: every small_factors() result folds back to its argument and respects a+b<=max_factor"]
 
-KINDS = ['term', 'lit', 'rule', 'group', 'template-arg', 'in-terminal']
+KINDS = ['term', 'lit', 'rule', 'group', 'template-arg', 'in-terminal', 'alt-group', 'in-terminal-seq']
 
 
 def grammar(kind, rep):
@@ -38,6 +38,10 @@ def grammar(kind, rep):
         return 'start: "<" rep{X} ">"\n_rep{t}: t%s\nX: /[abc]/\n' % rep, 1
     if kind == 'in-terminal':
         return 'start: "<" T ">"\nT: "b" /[ac]/%s\n' % rep, 1
+    if kind == 'alt-group':         # a group with alternatives: every occurrence chooses on its own
+        return 'start: "<" (X | Y)%s ">"\nX: /[abc]/\nY: "y"\n' % rep, 1
+    if kind == 'in-terminal-seq':   # inside a terminal, an occurrence that is a sequence of two character classes
+        return 'start: "<" T ">"\nT: "b" ("a".."c" "0".."1")%s\n' % rep, 1
     raise ValueError(kind)
 
 
@@ -50,6 +54,12 @@ def make_input(kind, k, rng):
     if kind == 'in-terminal':
         xs = [rng.choice('ac') for _ in range(k)]
         return '<b' + ''.join(xs) + '>', ['b' + ''.join(xs)]
+    if kind == 'in-terminal-seq':
+        xs = [rng.choice('abc') + rng.choice('01') for _ in range(k)]
+        return '<b' + ''.join(xs) + '>', ['b' + ''.join(xs)]
+    if kind == 'alt-group':
+        xs = [rng.choice('abcyy') for _ in range(k)]
+        return '<' + ''.join(xs) + '>', xs
     xs = [rng.choice('abc') for _ in range(k)]
     return '<' + ''.join(xs) + '>', xs
 
